@@ -57,17 +57,18 @@ func LoadWorld(path string) (*WorldJSON, error) {
 
 // ConcreteURI maps the abstract URI names of OPWorld to concrete strings.
 var ConcreteURI = map[string]string{
-	"ucw":  "https://cw.example.test/cb",
-	"ucw2": "https://cw.example.test/cb2?keep=a%2Bb&k=1",
-	"ucx":  "https://cx.example.test/cb",
-	"ucp":  "com.example.cp:/oauth/cb",
-	"ucj":  "https://cj.example.test/cb",
-	"ucn":  "http://127.0.0.1:7777/cn/cb",
-	"evil": "https://evil.example.test/cb",
-	"plcw": "https://cw.example.test/bye",
-	"plcx": "https://cx.example.test/bye?x=1",
-	"plcj": "https://cj.example.test/bye",
-	"":     "",
+	"ucw":     "https://cw.example.test/cb",
+	"ucw2":    "https://cw.example.test/cb2?keep=a%2Bb&k=1",
+	"ucx":     "https://cx.example.test/cb",
+	"ucp":     "com.example.cp:/oauth/cb",
+	"ucj":     "https://cj.example.test/cb",
+	"ucn":     "http://127.0.0.1:7777/cn/cb",
+	"evil":    "https://evil.example.test/cb",
+	"ucnEvil": "https://evil.example.test/cn/cb",
+	"plcw":    "https://cw.example.test/bye",
+	"plcx":    "https://cx.example.test/bye?x=1",
+	"plcj":    "https://cj.example.test/bye",
+	"":        "",
 }
 
 func AbstractURI(concrete string) string {
@@ -127,19 +128,20 @@ func BuildRegs(w *WorldJSON) []*modelstore.ClientReg {
 
 // Cfg is the provider configuration of one history (spec variable cfg).
 type Cfg struct {
-	Router  string `json:"router"`
-	Post    bool   `json:"post"`
-	PKJWT   bool   `json:"pkjwt"`
-	Refresh bool   `json:"refresh"`
-	ReqObj  bool   `json:"reqobj"`
-	S256    bool   `json:"s256"`
-	CC      bool   `json:"cc"`
-	TE      bool   `json:"te"`
-	Dev     bool   `json:"dev"`
-	Dyn     bool   `json:"dyn"` // issuer derived from the request host (op.IssuerFromHost): several tenants on one provider
-	Alg     string `json:"alg"`
-	SessSt  string `json:"sessionState"`
-	Policy  Policy `json:"policy"`
+	Router   string `json:"router"`
+	Post     bool   `json:"post"`
+	PKJWT    bool   `json:"pkjwt"`
+	Refresh  bool   `json:"refresh"`
+	ReqObj   bool   `json:"reqobj"`
+	S256     bool   `json:"s256"`
+	CC       bool   `json:"cc"`
+	TE       bool   `json:"te"`
+	Dev      bool   `json:"dev"`
+	OIDCErrs bool   `json:"oidcErrs"` // the storage reports an unknown client as *oidc.Error
+	Dyn      bool   `json:"dyn"`      // issuer derived from the request host (op.IssuerFromHost): several tenants on one provider
+	Alg      string `json:"alg"`
+	SessSt   string `json:"sessionState"`
+	Policy   Policy `json:"policy"`
 }
 
 // Policy is the token-exchange policy of the store (spec: cfg.policy).
@@ -195,6 +197,7 @@ func BuildProvider(store *modelstore.Store, cfg Cfg, extra ...op.Option) (http.H
 		},
 	}
 	store.SessionState = cfg.SessSt
+	store.NotFoundAsOIDC = cfg.OIDCErrs
 	store.Policy = modelstore.TEPolicy{Deny: cfg.Policy.Deny, Impersonate: cfg.Policy.Imp, DropScope: cfg.Policy.Drop}
 	if cfg.Policy.DefType != "" {
 		store.Policy.DefaultType = oidc.TokenType(tokenTypeURN[cfg.Policy.DefType])
